@@ -11,7 +11,7 @@ ID = "C15"
 FACTS = ["Bool", "Leaf", "ConfigLoop"]
 COQ_HEADER = "From SPV Require Import CorrDefs.CorrC15."
 COQ_CASE_TYPE = "case"
-RULE = ("kw_only dataclasses (1-5 leaves, up to 2 levels of nested dataclasses; nested members declared with default_factory=Class, "
+RULE = ("corpus/C15 (minimised past failures) first; kw_only dataclasses (1-5 leaves, up to 2 levels of nested dataclasses; nested members declared with default_factory=Class, "
         "default_factory=lambda: Class(leaf=..), without a default, or as `Optional[Class] = None` holding an instance or None) whose leaves range over the intersection of the CLI and the "
         "serialization grammars {int, float (exact short decimals), str, bool, Enum, Path, Optional[T], List[T], Tuple[..] fixed "
         "(homogeneous / heterogeneous) and variadic, Optional of a container}; each leaf has a definition default (or is required) and "
@@ -136,9 +136,18 @@ def _routes(i):
     return {"fmt": FMTS[i % 4], "via": VIAS[(i // 4) % 2], "api": APIS[(i // 8) % 2], "saver": SAVERS[(i // 16) % 2]}
 
 
+def corpus():
+    """minimised past failures (corpus/C15/*.json, each {"why": ..., "case": ...}), replayed first on every run"""
+    import glob
+    import json
+
+    d = os.path.join(os.path.dirname(WORK), "corpus", ID)
+    return [json.load(open(f))["case"] for f in sorted(glob.glob(os.path.join(d, "*.json")))]
+
+
 def gen(tier, seed):
     rng = random.Random(f"C15-{seed}")
-    cases = []
+    cases = corpus()
     idx = 0
     # block 1: every item type x every pool value, alone and inside each container / Optional; one leaf
     for it in ITEMS:
